@@ -23,21 +23,23 @@ EXPLANATION = (
 )
 ASSUMPTIONS = C04.ASSUMPTIONS + ["hard-kill path and cancellation of listen() are outside", "'promptly' is checked as 'within one second of virtual time after the later of the request, the last completion / acknowledgement and the expiry of wait_tasks_timeout' (the unchanged worker needs one 0.3 s poll)"]
 TRUSTED = C04.TRUSTED
-REQUIRED_COVERS = ["mid_chain_event", "stop_in_flight", "stop_idle", "wtt_elapsed", "never_ending", "quota_shutdown", "taken_after_stop"]
+REQUIRED_COVERS = ["backlog_ready", "mid_chain_event", "stop_in_flight", "stop_idle", "wtt_elapsed", "never_ending", "quota_shutdown", "taken_after_stop"]
 budget = C04.budget
 coverage_extra = C04.coverage_extra
 
 
 def bounds(tier: str) -> Dict[str, Any]:
     return {"messages": "M = 3 quick / 4 thorough", "A": "unbounded Int >= 1", "P": "unbounded Int >= 0 (plain, quota) / {0,1} (timeout cases)",
-            "N": "unbounded Int >= 1", "wait_tasks_timeout": "None, 0 or 5.0", "environment choices": "K = 6 quick / 8 thorough, then deterministic drain"}
+            "N": "unbounded Int >= 1", "wait_tasks_timeout": "None, 0 or 5.0", "backlog": "all M + 2 messages ready in the broker from the start (A, P symbolic, and A = 1, P = 0)", "environment choices": "K = 6 quick / 8 thorough, then deterministic drain"}
 
 
 def cases(tier: str) -> List[Any]:
     out = []
     M = 3 if tier == "quick" else 4
     K = 6 if tier == "quick" else 8
-    for cfg in ("plain", "quota", "wtt0", "wtt1", "wttzero", "ackfuture", "rawpayload"):
+    # "backlog": the broker already holds every message, so a fetch completes in its first step without suspending (a local
+    # queue / buffered consumer); "backlog1": the same with max_async_tasks = 1 and max_prefetch = 0 fixed
+    for cfg in ("plain", "quota", "wtt0", "wtt1", "wttzero", "ackfuture", "rawpayload", "backlog", "backlog1"):
         for prefix in itertools.product(range(3), repeat=3 if tier == "quick" else 4):
             out.append({"M": M, "K": K, "cfg": cfg, "prefix": list(prefix)})
     for cfg in ("plain", "quota", "wtt0", "ackfuture"):
@@ -58,8 +60,14 @@ def harness(c: sym.Ctx, case: Dict[str, Any]) -> None:
     kinds = ["valid"] * M
     if cfg == "rawpayload":
         kinds[1] = "malformed_raw"
-    spec = {"M": M, "kinds": kinds, "outcomes": outcomes, "A": "sym", "P": P, "N": "sym" if cfg == "quota" else "none",
-            "wtt": wtt, "K": case["K"], "prefix": case["prefix"], "ack_mode": "future" if cfg == "ackfuture" else False, "preempt": case.get("preempt", 0)}
+    if cfg == "backlog1":
+        P = 0
+    if cfg.startswith("backlog"):
+        M += 2
+        kinds, outcomes = ["valid"] * M, ["return"] * M
+        c.cover("backlog_ready")
+    spec = {"M": M, "kinds": kinds, "outcomes": outcomes, "A": 1 if cfg == "backlog1" else "sym", "P": P, "N": "sym" if cfg == "quota" else "none",
+            "ready": cfg.startswith("backlog"), "wtt": wtt, "K": case["K"], "prefix": case["prefix"], "ack_mode": "future" if cfg == "ackfuture" else False, "preempt": case.get("preempt", 0)}
     r = _listen.run(c, spec)
     ev = r.lab.ev
     if any(e[0] == "preempt" for e in ev):
